@@ -955,3 +955,29 @@ brk("C04", "influence exponent loses the imaginary unit", "D4", _sub(
 ok("C04", "dissipator with op_dagger inlined", _sub(
     SY, "        op_dagger = op.conjugate().T\n        liouvillian += gamma * (opr.left_right_super(op, op_dagger) \\\n                                - 0.5 * opr.acommutator(np.dot(op_dagger, op)))",
     "        liouvillian += gamma * (opr.left_right_super(op, op.conj().T) \\\n                                - 0.5 * opr.acommutator(op.conj().T @ op))"))
+
+brk("C03", "_apply_pt_mpos takes the future bond from axis 0", "M1", _multi(
+    _sub(SD, "        new_bond_edge = pt_mpo_node[1]\n        new_sys_edge = pt_mpo_node[3]\n        current_edges[i] ^ pt_mpo_node[0]",
+         "        new_bond_edge = pt_mpo_node[0]\n        new_sys_edge = pt_mpo_node[3]\n        current_edges[i] ^ pt_mpo_node[1]")))
+brk("C03", "PT-TEBD feeds the system leg into the output axis", "M1", _multi(
+    _sub(TEBDB, "                pt[2] ^ self._phys_es[site]\n                self._pt_es[site] = pt[1]\n                self._phys_es[site] = pt[3]",
+         "                pt[3] ^ self._phys_es[site]\n                self._pt_es[site] = pt[1]\n                self._phys_es[site] = pt[2]")))
+brk("C03", "file compute_caps swaps trace_in and trace_out", "M1", _sub(
+    PT, "            ten[2] ^ trace_in[0]\n            ten[3] ^ trace_out[0]\n            new_cap = ten @ last_cap @ trace_in @ trace_out\n            self.set_cap_tensor",
+    "            ten[3] ^ trace_in[0]\n            ten[2] ^ trace_out[0]\n            new_cap = ten @ last_cap @ trace_in @ trace_out\n            self.set_cap_tensor"))
+brk("C03", "rank-3 expansion onto the bond legs", "M1", _sub(
+    PT, "            tensor = util.create_delta(tensor, [0, 1, 2, 2])\n        if transformed is False:", "            tensor = util.create_delta(tensor, [0, 1, 1, 2])\n        if transformed is False:"))
+brk("C03", "system superoperator applied untransposed", "M2", _sub(
+    SD, "    sup_op_node = tn.Node(sup_op.T)", "    sup_op_node = tn.Node(sup_op)"))
+brk("C03", "dt agreement of the process tensors no longer checked", "M3", _sub(
+    SD, "                check_true(\n                    pt.dt == dt,\n                    \"All process tensors must have the same \"\\\n                            \"timestep length.\")", "                pass"))
+brk("C03", "longest process tensor bounds num_steps", "M3", _sub(
+    SD, "    max_step = np.min(max_steps+[np.inf])", "    max_step = np.max(max_steps+[0])"))
+brk("C03", "caps taken from the first process tensor only", "M4", _sub(
+    SD, "            cap = process_tensors[i].get_cap_tensor(step)", "            cap = process_tensors[0].get_cap_tensor(step)"))
+brk("C03", "every MPO connected to the first bond leg", "M4", _sub(
+    SD, "        current_edges[i] ^ pt_mpo_node[0]\n        current_edges[-1] ^ pt_mpo_node[2]\n        current_node = current_node @ pt_mpo_node\n        current_edges[i] = new_bond_edge",
+    "        current_edges[0] ^ pt_mpo_node[0]\n        current_edges[-1] ^ pt_mpo_node[2]\n        current_node = current_node @ pt_mpo_node\n        current_edges[0] = new_bond_edge"))
+ok("C03", "_apply_pt_mpos with renamed temporaries", _multi(
+    _sub(SD, "        new_bond_edge = pt_mpo_node[1]\n        new_sys_edge = pt_mpo_node[3]", "        next_bond_edge = pt_mpo_node[1]\n        next_sys_edge = pt_mpo_node[3]"),
+    _sub(SD, "        current_edges[i] = new_bond_edge\n        current_edges[-1] = new_sys_edge\n    return current_node, current_edges\n\ndef _apply_derivative", "        current_edges[i] = next_bond_edge\n        current_edges[-1] = next_sys_edge\n    return current_node, current_edges\n\ndef _apply_derivative")))
